@@ -87,7 +87,7 @@ def _gen_call(r, op, T, calm):
               "b_matrix": R.choice_w(r, [(None, 8), ("velocity", 8), ("static", 2), ("acceleration", 1)]),
               "allow_negatives": r.choice([None, True, False]),
               "adimensional_velocity": r.choice([None, True, False]),
-              "velocity_normalization": r.choice([None, None, 0.1, 2.0])}
+              "velocity_normalization": r.choice([None, None, 0.1, 2.0, 0])}
         if meth == "lsq":
             st["initial_condition"] = r.choice(["none", "ones", "gt", "rnd"])
             st["use_std"] = r.choice([None, True, False])
